@@ -4,13 +4,17 @@
    where "=" means the implementation's observation equals the model's, and props are the ids of
    the properties whose Spec the implementation's observation falsifies on this input. *)
 From Coq Require Import String.
-Require Import Base Node Command Glob Selector SelParse Policy PolicyIpld Chain.
+Require Import Base Node Command Glob Selector SelParse Policy PolicyIpld Chain Varint Generated Did.
 Local Open Scope N_scope.
 
 Definition nstr (n : node) : str := match n with Str s => s | Bytes s => s | _ => [] end.
 Definition nlist (n : node) : list node := match n with List l => l | _ => [] end.
 Definition nbool (n : node) : bool := match n with Bool b => b | _ => false end.
 Definition nint (n : node) : Z := match n with Int z => z | _ => 0%Z end.
+
+Definition oz (n : node) : option Z := match n with Int z => Some z | _ => None end.
+Definition mget (k : string) (n : node) : node :=
+  match n with Map m => match map_get (lit k) m with Some v => v | None => Null end | _ => Null end.
 
 Definition res_node {A} (f : A -> node) (r : res A) : node :=
   match r with
@@ -315,10 +319,45 @@ Definition eng_policyipld (inp impl : node) : verdict :=
                  end in
   {| model_obs := m; violated := c14 spec_ok |}.
 
+(* ---------------- engine: did (C16) ---------------- *)
+Definition c16 (ok : bool) : list str := if ok then [] else [lit "C16"].
+
+(* keys are instantiated by (code, canonical material); the library facts come with the case *)
+Definition eng_did (inp impl : node) : verdict :=
+  match inp with
+  | List [Str op; Str text; facts] =>
+      let lib_ok := nbool (mget "ok" facts) in
+      let canon := nstr (mget "canon" facts) in
+      let unmarshal (c : N) (m : str) : res (N * str) := if lib_ok then Ok (c, canon) else Err 1 in
+      let marshal (k : N * str) : res (N * str) := Ok k in
+      let m := match did_parse text with
+               | Ok d =>
+                   let pk := pubkey (N * str) marshal unmarshal d in
+                   List [Str (lit "ok"); Str (did_print d);
+                         Str (match pk with Ok _ => lit "ok" | Err _ => lit "err" | Panic => lit "panic" end);
+                         Bool (is_ok pk)]
+               | Err _ => List [Str (lit "err")]
+               | Panic => List [Str (lit "panic")]
+               end in
+      let spec_ok :=
+        match impl with
+        | List [Str k] => str_eqb k (lit "err") && negb (is_ok (did_parse text))     (* rejection of a text the parser theorem accepts is a loss too *)
+        | List [Str _; Str printed; Str cls; Bool can] =>
+            is_ok (did_parse text) && str_eqb printed text &&
+            negb (str_eqb cls (lit "panic")) && (negb (str_eqb cls (lit "ok")) || can)
+        | _ => false
+        end in
+      {| model_obs := m; violated := c16 spec_ok |}
+  | List [Str op; Str _] =>
+      (* key -> DID -> text -> DID -> key for a generated key: everything must succeed *)
+      {| model_obs := List [Bool true; Bool true; Bool true];
+         violated := c16 (node_eqb impl (List [Bool true; Bool true; Bool true])) |}
+  | List [Str op; Bool keys_equal] =>
+      {| model_obs := Bool keys_equal; violated := c16 (Bool.eqb (nbool impl) keys_equal) |}
+  | _ => bad
+  end.
+
 (* ---------------- engine: chain (C01-C05) ---------------- *)
-Definition oz (n : node) : option Z := match n with Int z => Some z | _ => None end.
-Definition mget (k : string) (n : node) : node :=
-  match n with Map m => match map_get (lit k) m with Some v => v | None => Null end | _ => Null end.
 
 Definition dlg_of_node (n : node) : option dlg :=
   match policy_of_nodes (nlist (mget "pol" n)) with
@@ -421,7 +460,7 @@ Definition engines : list (str * (node -> node -> verdict)) :=
     (lit "selector", eng_selector);
     (lit "policy", eng_policy);
     (lit "chain", eng_chain);
-    (lit "selparse", eng_selparse); (lit "policyipld", eng_policyipld) ].
+    (lit "selparse", eng_selparse); (lit "did", eng_did); (lit "policyipld", eng_policyipld) ].
 
 Fixpoint find_engine (e : str) (l : list (str * (node -> node -> verdict))) : option (node -> node -> verdict) :=
   match l with
